@@ -83,6 +83,7 @@ class GS:
         self.consts: list[str] = []       # every constant name defined in this scope (duplicate avoidance)
         self.inline_names: set[str] = set()  # names defined in .if branches written in this scope (same assembler scope)
         self.refs: set[str] = set()          # constant names already referenced from this scope or below it
+        self.scope_names: set[str] = set()   # named scopes written directly in this scope
         self.params: list[str] = []
         self.wide: str | None = None      # macro parameter used in unsized operands (arguments of several width classes)
         self.loopvar: tuple | None = None
@@ -154,6 +155,9 @@ class ProgGen:
         nb = self.bus.range_bytes(r) // r.size
         bank = r.first + rng.randint(0, max(0, nb - 4))
         k = rng.random()
+        if rng.random() < 0.06:
+            # the very first byte of the range (file offset 0) and its neighbours
+            return (r.first << 16) | (r.win_lo + rng.choice([0, 0, 0, 1, 2]))
         if k < self.p.edge_weight:
             off = r.win_hi - rng.randint(0, 6)
         elif k < self.p.edge_weight + 0.15:
@@ -231,6 +235,15 @@ class ProgGen:
                 self.n_scope += 1
                 child = GS(gs, "named")
                 node["n"] = f"sc_{self.n_scope}"
+                if self.p.shadowing and rng.random() < 0.6:
+                    # the same scope name at different nesting levels / in sibling scopes (never twice in one scope)
+                    real = gs
+                    while real.kind == "ifbranch" and real.parent is not None:
+                        real = real.parent
+                    cand = [n_ for n_ in ("sc_a", "sc_b", "sc_c") if n_ not in real.scope_names]
+                    if cand:
+                        node["n"] = rng.choice(cand)
+                        real.scope_names.add(node["n"])
                 node["gs"] = child
                 node["b"] = self.skeleton(child, rng.randint(1, 4), depth + 1, in_macro, in_loop, allow_calls)
                 gs.exports += [f"{node['n']}.{l}" for l in child.labels]
